@@ -108,4 +108,25 @@ FeederSpec(m, dir, pad, S) ==
         IF pad # "default" THEN SpecErr(before)
         ELSE SpecOk(Take(Whole(m, dir, S \o Zeros(m.seg - (L % m.seg))), L))
     ELSE SpecOk(Whole(m, dir, S))
+
+(* ------------------- blockfeeder._feed_stream / encrypt_stream / decrypt_stream ------------------- *)
+(* The helper is a loop over the results of in_stream.read(block_size): every non-empty result is fed, the
+   outputs are written in order, and ONLY AN EMPTY result ends the stream (a raw stream, pipe or socket may
+   legally return fewer bytes than asked before its end); then feed(None).  reads = the results of the
+   successive read calls (a trailing empty result may be present or not).  shortEnds = TRUE is the deviation
+   "a result shorter than block_size is taken for the tail of the stream" (refuted in MC_FeedStream).
+   Result: [out, err, used] - used = number of read results consumed (incl. the empty one if present). *)
+RECURSIVE StreamLoop(_, _, _, _, _, _)
+StreamLoop(f, reads, i, out, bs, shortEnds) ==
+    IF i > Len(reads) \/ reads[i] = <<>> THEN
+        LET r == Final(f) IN [out |-> out \o r.out, err |-> r.err, used |-> IF i > Len(reads) THEN Len(reads) ELSE i]
+    ELSE LET r == Feed(f, reads[i]) IN
+         IF shortEnds /\ Len(reads[i]) < bs THEN
+             LET q == Final(r.f) IN [out |-> (out \o r.out) \o q.out, err |-> q.err, used |-> i]
+         ELSE StreamLoop(r.f, reads, i + 1, out \o r.out, bs, shortEnds)
+FeedStream(m, dir, pad, reads, bs, shortEnds) == StreamLoop(NewFeeder(NewMode(m), dir, pad), reads, 1, <<>>, bs, shortEnds)
+RECURSIVE Flatten(_, _, _)
+Flatten(reads, i, acc) == IF i > Len(reads) THEN acc ELSE Flatten(reads, i + 1, acc \o reads[i])
+\* specification of the helpers: the whole-stream specification of everything the input stream holds
+StreamSpec(m, dir, pad, data) == FeederSpec(m, dir, pad, data)
 =============================================================================
